@@ -565,3 +565,138 @@ def in_declared_range(t, v):
         return all(in_declared_range(f, x) for f, x in zip(t["fields"], v))
     tag, x = v
     return tag < len(t["fields"]) and in_declared_range(t["fields"][tag], x)
+
+
+# ------------------------------------------------------------------ evolved encodings (stimuli only: never an oracle)
+
+def _parse(t, bits, pos, out):
+    """split a valid encoding into raw bit runs and length-delimited nested objects; returns the new position or None"""
+    k = t["k"]
+    if is_prim(t):
+        w = prim_w(t)
+        if pos + w > len(bits):
+            return None
+        out.append(["bits", bits[pos:pos + w]])
+        return pos + w
+    if k in ("farr", "varr"):
+        n = t["n"] if k == "farr" else None
+        if n is None:
+            pw = prefix_w(t["wcap"])
+            if pos + pw > len(bits):
+                return None
+            n = sum(b << i for i, b in enumerate(bits[pos:pos + pw]))
+            out.append(["bits", bits[pos:pos + pw]])
+            pos += pw
+            if n > t["cap"]:
+                return None
+        for _ in range(n):
+            pos = _parse_field(t["e"], bits, pos, out)
+            if pos is None:
+                return None
+        return pos
+    # nested composite
+    if t["sealed"]:
+        return _parse_body(t, bits, pos, out)
+    if pos + 32 > len(bits):
+        return None
+    h = sum(b << i for i, b in enumerate(bits[pos:pos + 32]))
+    p1 = pos + 32
+    if p1 + 8 * h > len(bits):
+        return None
+    sub = []
+    inner = bits[p1:p1 + 8 * h]
+    end = _parse_body(t, inner, 0, sub)
+    if end is None:
+        return None
+    if end < len(inner):
+        sub.append(["bits", inner[end:]])
+    out.append(["delim", sub, []])
+    return p1 + 8 * h
+
+
+def _parse_field(t, bits, pos, out):
+    a = align(t)
+    if pos % a:
+        pad = a - pos % a
+        if pos + pad > len(bits):
+            return None
+        out.append(["bits", bits[pos:pos + pad]])
+        pos += pad
+    return _parse(t, bits, pos, out)
+
+
+def _parse_body(t, bits, pos, out):
+    if t["k"] == "struct":
+        for f in t["fields"]:
+            pos = _parse_field(f, bits, pos, out)
+            if pos is None:
+                return None
+    else:
+        tw = prefix_w(len(t["fields"]) - 1)
+        if pos + tw > len(bits):
+            return None
+        tag = sum(b << i for i, b in enumerate(bits[pos:pos + tw]))
+        out.append(["bits", bits[pos:pos + tw]])
+        pos += tw
+        if tag >= len(t["fields"]):
+            return None
+        pos = _parse_field(t["fields"][tag], bits, pos, out)
+        if pos is None:
+            return None
+    if pos % 8:
+        pad = 8 - pos % 8
+        if pos + pad > len(bits):
+            return None
+        out.append(["bits", bits[pos:pos + pad]])
+        pos += pad
+    return pos
+
+
+def _emit(tokens):
+    bits = []
+    for tok in tokens:
+        if tok[0] == "bits":
+            bits += tok[1]
+        else:
+            payload = _emit(tok[1]) + tok[2]
+            h = len(payload) // 8
+            bits += [(h >> i) & 1 for i in range(32)] + payload
+    return bits
+
+
+def _delims(tokens, acc):
+    for tok in tokens:
+        if tok[0] == "delim":
+            acc.append(tok)
+            _delims(tok[1], acc)
+    return acc
+
+
+def evolve(t, data, rng, limit=6):
+    """encodings a peer with ANOTHER revision of the nested extensible types would send for the same message: one length-delimited nested
+    object made longer (bytes the receiver does not know: implicit truncation, every enclosing header grows with it) or cut short (implicit
+    zero extension inside the nested object).  Both are valid representations.  [(bytes, why)]"""
+    import copy
+
+    bits = [(b >> i) & 1 for b in data for i in range(8)]
+    toks = []
+    if _parse_body(t, bits, 0, toks) != len(bits):
+        return []
+    res = []
+    nodes = _delims(toks, [])
+    for idx in range(len(nodes)):
+        for grow in (True, False):
+            tk = copy.deepcopy(toks)
+            node = _delims(tk, [])[idx]
+            if grow:
+                node[2] = [rng.getrandbits(1) for _ in range(8 * rng.choice([1, 2, 5]))]
+            else:
+                payload = _emit(node[1])
+                if len(payload) < 8:
+                    continue
+                cut = 8 * rng.randrange(0, len(payload) // 8)
+                node[1] = [["bits", payload[:cut]]]
+            out = _emit(tk)
+            res.append((bytes(sum(out[i + j] << j for j in range(8)) for i in range(0, len(out), 8)), "evolved-longer" if grow else "evolved-shorter"))
+    rng.shuffle(res)
+    return res[:limit]
